@@ -4,6 +4,7 @@ import (
 	"context"
 	"encoding/json"
 	"fmt"
+	"strconv"
 	"strings"
 	"time"
 
@@ -39,8 +40,8 @@ var c07Dims = []struct {
 	{"msg", []string{"null", "scalar", "deep", "none", "string-with-question-mark"}},
 	{"ctl", []string{"nil", "limit-zero", "limit-negative", "breakpoint", "nil-breakpoints-huge-limit"}},
 	{"props", []string{"nil", "nested"}},
-	{"act", []string{"throw", "spin", "retnull", "retscalar", "retarray", "emitbad-nan", "emitbad-func", "emitbad-cycle", "setbad", "setcycle", "getter-throw", "getter-loop", "nerrpartial", "nnilexec", "nnilbs", "nnoevents", "emit-throw", "none"}},
-	{"guard", []string{"throw", "spin", "retnull", "retscalar", "retarray", "emitbad-nan", "emitbad-cycle", "getter-throw", "nerrpartial", "nnilexec", "nnilbs", "nnoevents", "none"}},
+	{"act", []string{"throw", "spin", "retnull", "retscalar", "retarray", "emitbad-nan", "emitbad-func", "emitbad-cycle", "setbad", "setcycle", "getter-throw", "getter-loop", "nerrpartial", "nnilexec", "nnilbs", "nnoevents", "emit-throw", "none", "misuse-0", "misuse-1", "misuse-2", "misuse-3", "misuse-4", "misuse-5", "misuse-6", "misuse-7", "misuse-8", "misuse-9"}},
+	{"guard", []string{"throw", "spin", "retnull", "retscalar", "retarray", "emitbad-nan", "emitbad-cycle", "getter-throw", "nerrpartial", "nnilexec", "nnilbs", "nnoevents", "none", "misuse-0", "misuse-1", "misuse-3", "misuse-5", "misuse-8"}},
 	{"err", []string{"aeb", "aen", "aen-missing-node"}},
 }
 
@@ -124,7 +125,26 @@ func behaviour(name string, native bool, guard bool) (*actlang.Prog, bool) {
 	case "nnilbs":
 		return prog(true, Op{K: actlang.NativeNilBs}), native
 	}
+	if strings.HasPrefix(name, "misuse-") {
+		i, _ := strconv.Atoi(name[len("misuse-"):])
+		return prog(false, Op{K: actlang.Emit, V: "lost"}, Op{K: actlang.Misuse, A: c07Misuses[i]}), !native
+	}
 	return nil, false
+}
+
+// helpers of the script environment called the wrong way (the extended helpers exist only under the extended
+// interpreter; under the plain one the call itself is a TypeError): each must end as a failed execution
+var c07Misuses = []string{
+	`_.match();`,
+	`_.match({a: "?x"});`,
+	`_.match({a: "?x"}, {a: 1}, 7);`,
+	`_.match({a: "?x"}, {a: 1}, "bindings");`,
+	`_.match(function() {}, {a: 1});`,
+	`_.match({a: ["?x", "?y"]}, {a: [1, 2]});`,
+	`_.cronNext();`,
+	`_.cronNext(7);`,
+	`_.cronNext("not a cron expression at all");`,
+	`_.out(function() {}); _.nosuchhelper(1);`,
 }
 
 func deepMsg(n int) interface{} {
